@@ -362,3 +362,22 @@ package openapi3
 //@ func DefineIntegerFormatValidator
 //@   requires validator != nil
 //@   modifies *
+
+// validation option constructors: a fresh closure, nothing else
+//@ func MultiErrors
+//@   modifies nothing
+//@ func VisitAsResponse
+//@   modifies nothing
+//@ func VisitAsRequest
+//@   modifies nothing
+//@ func DisableWriteOnlyValidation
+//@   modifies nothing
+//@ func DisableReadOnlyValidation
+//@   modifies nothing
+//@ func SetSchemaErrorMessageCustomizer
+//@   modifies nothing
+// the exported entry point: runs the visitor with the given options (it may put defaults into the
+// value in request/response mode; it never writes the document - C15 scan)
+//@ func (*Schema).VisitJSON
+//@   modifies *
+//@   preserves all(openapi3)
